@@ -288,35 +288,15 @@ impl<'a, R: Read> ChunkedReader<'a, R> {
     }
 }
 
-impl<R: Read> Read for ChunkedReader<'_, R> {
-    fn read(&mut self, mut out: &mut [u8]) -> io::Result<usize> {
-        let mut written = 0;
+impl<R: Read> ChunkedReader<'_, R> {
+    /// Moves past size lines, chunk terminators and the trailer section, until the reader is
+    /// positioned inside chunk data (`Data` with bytes remaining) or at the end (`Done`).
+    fn advance(&mut self) -> io::Result<()> {
         loop {
             match self.state {
-                ChunkState::Size => {
-                    self.read_chunk_size()?;
-                    continue;
-                }
-                ChunkState::Data => {
-                    if self.remaining_in_chunk == 0 {
-                        self.state = ChunkState::Crlf;
-                        continue;
-                    }
-                    if out.is_empty() {
-                        break;
-                    }
-                    let to_read = min(self.remaining_in_chunk, out.len());
-                    let n = self.inner.read(&mut out[..to_read])?;
-                    if n == 0 {
-                        return Err(io::Error::new(ErrorKind::UnexpectedEof, "chunk truncated"));
-                    }
-                    self.remaining_in_chunk -= n;
-                    written += n;
-                    out = &mut out[n..];
-                    if self.remaining_in_chunk == 0 || out.is_empty() {
-                        break;
-                    }
-                }
+                ChunkState::Size => self.read_chunk_size()?,
+                ChunkState::Data if self.remaining_in_chunk == 0 => self.state = ChunkState::Crlf,
+                ChunkState::Data | ChunkState::Done => return Ok(()),
                 ChunkState::Crlf => {
                     let mut crlf = [0u8; 2];
                     self.inner.read_exact(&mut crlf)?;
@@ -345,23 +325,52 @@ impl<R: Read> Read for ChunkedReader<'_, R> {
                     }
                     self.state = ChunkState::Done;
                 }
-                ChunkState::Done => break,
             }
         }
-        if written == 0 && matches!(self.state, ChunkState::Done) {
-            Ok(0)
-        } else {
-            Ok(written)
+    }
+}
+
+impl<R: Read> Read for ChunkedReader<'_, R> {
+    fn read(&mut self, mut out: &mut [u8]) -> io::Result<usize> {
+        let mut written = 0;
+        loop {
+            self.advance()?;
+            if self.state == ChunkState::Done || out.is_empty() {
+                break;
+            }
+            let to_read = min(self.remaining_in_chunk, out.len());
+            let n = self.inner.read(&mut out[..to_read])?;
+            if n == 0 {
+                return Err(io::Error::new(ErrorKind::UnexpectedEof, "chunk truncated"));
+            }
+            self.remaining_in_chunk -= n;
+            written += n;
+            out = &mut out[n..];
+            if self.remaining_in_chunk == 0 || out.is_empty() {
+                break;
+            }
         }
+        Ok(written)
     }
 }
 
 impl<R: Read> BufRead for ChunkedReader<'_, R> {
     fn fill_buf(&mut self) -> io::Result<&[u8]> {
-        self.inner.fill_buf()
+        self.advance()?;
+        if self.state == ChunkState::Done {
+            return Ok(&[]);
+        }
+        let buf = self.inner.fill_buf()?;
+        if buf.is_empty() {
+            return Err(io::Error::new(ErrorKind::UnexpectedEof, "chunk truncated"));
+        }
+        let len = min(buf.len(), self.remaining_in_chunk);
+        Ok(&buf[..len])
     }
     fn consume(&mut self, amt: usize) {
-        self.inner.consume(amt)
+        debug_assert!(amt <= self.remaining_in_chunk, "no more remaining");
+        self.inner.consume(amt);
+        self.remaining_in_chunk -= amt;
     }
 }
 
